@@ -15,7 +15,7 @@ with a template typed member, concrete subclass chain, a function with 10..12 pa
 call the wide function. Imports may stand after other top-level statements (`late`); a module may die with an unexpected
 exception while loading (`crash`); import edges: model == Entrypoint.imports (stream) == Python ast (search). Memoised lists / dicts / sets handed out by the real Memoize.get record every in-place mutation (oracle
 `memo-mutated`). State inventory: translate/gen_session_state.py -> Generated/SessionState.lean (theorems inventory_*).
-Modules.load: translate/gen_load_shape.py -> Generated/LoadShape.lean (theorem load_generated); the unload methods: translate/gen_unload_shape.py -> Generated/UnloadShape.lean (theorems unload_one_generated / unload_generated);
+Modules.load: translate/gen_load_shape.py -> Generated/LoadShape.lean (theorem load_generated); Py2Cpp.transpile / Interactive.rebuild_module: translate/gen_session_ops.py -> Generated/SessionOps.lean (transpile_generated / resubmit_generated); the unload methods: translate/gen_unload_shape.py -> Generated/UnloadShape.lean (theorems unload_one_generated / unload_generated);
 the library closure: translate/gen_lib_closure.py -> Generated/LibClosure.lean (lib_closure_*, compared with the real App on every run).
 In-memory submissions may declare nothing (expression statements only) or die while their imports load, and are followed by another
 text for the same path; after every op the registry, the parsed sources and the symbol table are read independently (`unload-residue`).
@@ -1734,11 +1734,12 @@ STATEMENTS: dict[str, str] = {
 	'unload_resets / unload_noop': 'unload m of a registered module leaves nothing of m in the registry, the entrypoints (with the node tables and memos they own), the symbol table, the completed list and the memoised identities, after the whole cascade; unload of an unregistered module changes nothing',
 	'unload_one_generated / unload_generated': 'GENERATED unload methods (translate/gen_unload_shape.py: every statement of Modules.unload, ModuleLoader.unload, Entrypoints.unload, SymbolDB.unload in source order in a small removal language; an early return, a new condition, another statement or an else branch is a TranslateError): run as programs over the model state, the statements before the cascade ARE the hand-written removal of one module (entrypoint, completed flag, symbol keys, registry entry + memoised identity: four unconditional removals), and the whole generated Modules.unload with the model unload as its recursive call IS the model unload with one more level of fuel (the cascade happens after the removal, over the dependents read in the state reached then)',
 	'load_generated': 'GENERATED Modules.load (translate/gen_load_shape.py: guard, library load, re-check, registration before the imports, imports, processors, the rollback `except Exception: self.unload(p); raise` around the last two, the outer handlers, the return; the helpers __load_libraries / __load_dependencies / libralies pinned to the text the model was written from; anything else is a TranslateError): run as a program over the model state it IS the hand-written loadOne for every recursive loader and rollback, and loadAll is the recursion read from the source',
+	'transpile_generated / resubmit_generated': 'GENERATED request paths (translate/gen_session_ops.py: Py2Cpp.transpile = push a dependency frame, Procedure.exec, pop, return result — no try/finally; Interactive.rebuild_module = set the source, unload the in-memory module, return its load — unconditional, in this order; any other statement is a TranslateError): run as programs over the model state they ARE the hand-written transpile / resubmit operations of the model',
 	'inventory_unload': 'GENERATED inventory (translate/gen_session_state.py: every attribute / class-level / module-level container, every attribute rebound outside __init__, every memoised key, every setattr / cache decorator / global, every write to an attribute of another object, in all sources of rogw/tranp; writers pinned; verdict per site audited in translate/c04_state_audited.json): every site audited "removed by unload" or "owned by a per-module entry" names a model component in which unload m leaves nothing of m; every site audited "keyed by content" or "per-call stack" names a component unload does not touch',
 	'inventory_backed': 'every component of the model state except the symbol files (file system) is backed by at least one site of the inventory',
 	'inventory_audit_consistent': 'sites audited constant are written by __init__ only (class-level tables by nobody, also not from other files); sites audited removed-by-unload are written by a method named unload / clear; every memoised key is in a node table owned by an entrypoint or in the self-hosted parser',
 	'lib_closure_reach / lib_closure_closed': 'GENERATED library closure (translate/gen_lib_closure.py: library_paths(), the search directories of SourceEnvPath and the top-level imports of the stub files, AST only; compared on every run with what a real App registers and with Entrypoint.imports): every module of the shipped closure is reached from library_paths() through imports of files (BaseWorld.reach), the libraries are in it and every import of one of its files is in it (World.libs_base / base_closed)',
-	'baseWorld_load_shipped_partial': 'bounded instance of the hypothesis BaseWorld.load of det_all on the shipped closure, decided by the kernel on the model: after EVERY history of at most three load / transpile / unload operations on modules of the closure from a fresh process, loading the closure succeeds, registers nothing else, completes every module and gives every module the table of a plain load in a fresh process (the hypothesis itself — every reachable base-only state — stays a hypothesis)',
+	'baseWorld_load_shipped_partial': 'bounded instance of the hypothesis BaseWorld.load of det_all on the shipped closure, decided by the kernel on the model: after EVERY history of at most three load / transpile / unload operations on modules of the closure from a fresh process, loading the closure succeeds, registers nothing else, completes every module and gives every module the table of a plain load in a fresh process (the full statement — histories of any length — is kept as baseWorld_load_shipped_statement and NOT proved; the hypothesis itself — every reachable base-only state — stays a hypothesis)',
 	'unload_fuel': 'the cascade of unload never runs out of fuel: every fuel >= number of registered modules gives the same state',
 	'unload_load': 'unload m; load m gives m the tree of its source and exactly its reference table, as a load in any other stable state does',
 	'targets_sound / targets': 'every result the Runner produces is the reference result of its target; runs over permuted target lists without failing target produce the same (target, text) pairs',
@@ -1747,7 +1748,7 @@ PARTIAL: dict[str, Any] = {
 	'proved': 'cache coherence for all histories (inv, frame, unload_*, stack_frames); determinism for all histories of operations incl. failing ones (det, det_ref), unload/load = fresh load, target-order equivariance — on the model of the repaired Modules (rollback, cascade, re-check)',
 	'cycles': 'the model follows the code on import cycles (registration before imports, Module.identity() of c3eaa55: depth-first walk of the import closure with a visited set, mid-load fallback -> Errors.Fatal for a missing import file, self-imports, rollback, cascade) and is tied by the streams on cyclic pools; det / det_all assume an acyclic import graph, so for cyclic pools session == fresh is checked by the search only',
 	'remaining_hypotheses': 'World: dotted module names; ExpandModules / renderer read the symbol table only inside the import closure (proved for the descriptor language); acyclic import graph; no file imports the in-memory module; the library modules and their imports are a pinned base that the history does not unload; no RecursionError',
-	'generated_model_parts': 'Modules.load (statement program, proved equal to the hand-written loadOne / loadAll: load_generated), the four unload methods (statement lists, proved equal to the hand-written unloadOne / unload cascade: unload_one_generated, unload_generated), the inventory of state sites (inventory_*), the library closure with its import edges (lib_closure_*) are read from the sources on every run; an unknown shape is a TranslateError',
+	'generated_model_parts': 'Py2Cpp.transpile and Interactive.rebuild_module (statement lists, proved equal to the hand-written transpile / resubmit: transpile_generated, resubmit_generated), Modules.load (statement program, proved equal to the hand-written loadOne / loadAll: load_generated), the four unload methods (statement lists, proved equal to the hand-written unloadOne / unload cascade: unload_one_generated, unload_generated), the inventory of state sites (inventory_*), the library closure with its import edges (lib_closure_*) are read from the sources on every run; an unknown shape is a TranslateError',
 	'registry_residue': 'that Entrypoints / SymbolDB keys / SymbolDB completed never know a module Modules does not list, and that unload m leaves nothing of m in any of the four: proved on the model (inv: Coherent; unload_resets), tied by the streams (all four tables are in every observation), and checked on the real code alone after every op of every session (search unload-residue)',
 	'regression': 'the three former counterexamples (failed-load-retry, dep-unloaded, lib-closure-first) are examples proved equal to the fresh result by decide, and corpus cases that must pass on the real code',
 	'correspondence_only': 'that the real Modules/Entrypoints/SymbolDB/processors/transpile stacks behave like the model on generated pools (streams session, session-faulty); the concrete descriptor language (which keys ExpandModules inserts, when the renderer fails)',
@@ -1808,10 +1809,11 @@ def run_checked(ctx: Ctx, before: str | None) -> int:
 	translate_ok, translate_msg = True, ''
 	with ctx.timed('translate'):
 		try:
-			from translate import gen_lib_closure, gen_load_shape, gen_session_state, gen_unload_shape
+			from translate import gen_lib_closure, gen_load_shape, gen_session_ops, gen_session_state, gen_unload_shape
 			ctx.generated_tables.extend(gen_session_state.generate())
 			ctx.generated_tables.extend(gen_unload_shape.generate())
 			ctx.generated_tables.extend(gen_load_shape.generate())
+			ctx.generated_tables.extend(gen_session_ops.generate())
 			closure_recs = gen_lib_closure.generate()
 			LIB_TABLE.update({'libs': closure_recs[0]['libs'], 'modules': closure_recs[0]['modules']})
 			ctx.generated_tables.extend(closure_recs)
